@@ -145,6 +145,121 @@ func scenarioBackendPending(enc *json.Encoder, idx int) map[string]any {
 	return res
 }
 
+// ---------------------------------------------------------------- family L: one Server, two listeners (C17)
+
+// The same Server serves two listeners (Serve called twice - a public and an internal port, say).  An HTTP/1.1 exchange that came in
+// through the first one is in flight when the context is cancelled: NEITHER call may return before it has drained - "Serve returned"
+// is what the embedding program takes as "safe to exit".  The scenario is observed from outside only (its hook events go to a recorder
+// of its own that is not written to the trace: ProxyServer.tla models one Serve call).
+func scenarioTwoListeners(idx int) map[string]any {
+	res := map[string]any{"name": fmt.Sprintf("shutdown-two-listeners-%d", idx), "family": "twolisten", "variant": "two_listeners", "conns": 0, "notes": []string{}}
+	recMu.Lock()
+	rec = NewRecorder()
+	recMu.Unlock()
+	release := make(chan struct{})
+	arrived := make(chan struct{}, 4)
+	wrap := func(srv *proxyserver.Server) {
+		inner := srv.HTTPServer.Handler
+		srv.HTTPServer.Handler = http.HandlerFunc(func(w http.ResponseWriter, r *http.Request) {
+			if strings.HasPrefix(r.URL.Path, "/slow") {
+				arrived <- struct{}{}
+				<-release
+				w.Header().Set("X-Slow", "done")
+				io.WriteString(w, "slow-response-body")
+				return
+			}
+			inner.ServeHTTP(w, r)
+		})
+	}
+	st, err := stack.Start(stack.Options{HandshakeTimeout: 5 * time.Second, MutateServer: wrap})
+	if err != nil {
+		res["error"] = "start: " + err.Error()
+		return res
+	}
+	ln2, err := net.Listen("tcp", "127.0.0.1:0")
+	if err != nil {
+		res["error"] = "listen: " + err.Error()
+		st.Close()
+		return res
+	}
+	serr2 := make(chan error, 1)
+	go func() { serr2 <- st.Server.Serve(ln2) }()
+	time.Sleep(50 * time.Millisecond)
+	slowDone := make(chan string, 1)
+	go func() {
+		raw, err := net.DialTimeout("tcp", st.Addr, 3*time.Second)
+		if err != nil {
+			slowDone <- "dial: " + err.Error()
+			return
+		}
+		defer raw.Close()
+		tc, err := tlsClient(raw, []string{"http/1.1"})
+		if err != nil {
+			slowDone <- "handshake: " + err.Error()
+			return
+		}
+		tc.SetDeadline(time.Now().Add(20 * time.Second))
+		io.WriteString(tc, "GET /slow HTTP/1.1\r\nHost: vf.test\r\n\r\n")
+		resp, err := http.ReadResponse(bufio.NewReader(tc), nil)
+		if err != nil {
+			slowDone <- "response: " + err.Error()
+			return
+		}
+		b, _ := io.ReadAll(resp.Body)
+		slowDone <- fmt.Sprintf("%d %s %s", resp.StatusCode, resp.Header.Get("X-Slow"), b)
+	}()
+	select {
+	case <-arrived:
+	case <-time.After(5 * time.Second):
+		res["error"] = "the slow request never reached the handler"
+		close(release)
+		st.Close()
+		return res
+	}
+	st.Cancel()
+	time.Sleep(400 * time.Millisecond) // both watchers have been told; the exchange is still held
+	var early []string
+	var e1, e2 error
+	got1, got2 := false, false
+	select {
+	case e1 = <-st.ServeErr:
+		got1 = true
+		early = append(early, "listener 1 (the one the exchange came in through): "+errName(e1))
+	default:
+	}
+	select {
+	case e2 = <-serr2:
+		got2 = true
+		early = append(early, "listener 2: "+errName(e2))
+	default:
+	}
+	res["returned_before_drain_list"] = early
+	close(release)
+	select {
+	case r := <-slowDone:
+		res["slow_exchange"] = r
+	case <-time.After(8 * time.Second):
+		res["slow_exchange"] = "no response"
+	}
+	deadline := time.After(10 * time.Second)
+	for !(got1 && got2) {
+		select {
+		case e1 = <-st.ServeErr:
+			got1 = true
+		case e2 = <-serr2:
+			got2 = true
+		case <-deadline:
+			res["not_returned_10s_after_drain"] = fmt.Sprintf("listener1 returned=%v listener2 returned=%v", got1, got2)
+			got1, got2 = true, true
+		}
+	}
+	if got1 {
+		st.ServeErr <- e1 // Close() below reads it
+	}
+	st.Close()
+	return res
+}
+
 // ---------------------------------------------------------------- family R: every way of leaving, one connection kind x stage x manner each (C11)
 
 func scenarioLeave(enc *json.Encoder, idx int, reset bool) map[string]any {
@@ -979,6 +1094,7 @@ func runAll(tracePath, reportPath string) {
 	for i, v := range []string{"none", "early", "idle", "handshaking", "mixed", "repeat", "handoff", "active", "handoff", "handoff", "handoff", "handoff", "handoff", "handoff", "handoff"} {
 		report = append(report, scenarioShutdown(enc, i, v))
 	}
+	report = append(report, scenarioTwoListeners(0))
 	if p := os.Getenv("VF_SCHED"); p != "" {
 		if b, err := os.ReadFile(p); err == nil {
 			var scheds []schedule
